@@ -19,12 +19,12 @@ type DBOp struct {
 }
 
 var dbMutators = map[string]string{
-	"(*db.Batch).Set":                   "Set",
-	"(*db.Batch).Del":                   "Del",
-	"(*db.DB).Set":                      "Set",
-	"(*db.DB).Del":                      "Del",
-	"(*db.DB).Write":                    "Write",
-	"(*db.DB).DropAll":                  "DropAll",
+	"(*db.Batch).Set":                    "Set",
+	"(*db.Batch).Del":                    "Del",
+	"(*db.DB).Set":                       "Set",
+	"(*db.DB).Del":                       "Del",
+	"(*db.DB).Write":                     "Write",
+	"(*db.DB).DropAll":                   "DropAll",
 	"iface:db/diffdb.DatabaseWriter.Set": "Set",
 	"iface:db/diffdb.DatabaseWriter.Del": "Del",
 	"iface:db/diffdb.setter.Set":         "Set",
